@@ -7,7 +7,7 @@ theorems assume (lean/MdIt/Block.lean: RuleOK, Props/C01.lean: IRuleOK):
  block rule  K1 no exception · K2 a miss / a silent call changes nothing (line, tokens, level,
              blkIndent, lineMax, line tables) · K3 a non-silent match ends with
              startLine < state.line <= endLine · K4 tables, blkIndent, lineMax, level restored on
-             return · K5 the pushed segment is balanced at the entry level and its maps lie in
+             return · K6 a silent (terminator) call of a rule that tests parentType sees the value its calling rule pinned · K5 the pushed segment is balanced at the entry level and its maps lie in
              [startLine, state.line)
  inline rule K1 · a miss changes nothing · a match advances pos, keeps level/posMax/src; a silent
              match adds no token and no pending text
@@ -27,6 +27,10 @@ class Monitor:
         self.inline_calls = {}
         self.loops = []  # recorded block loops
         self._loop_stack = []
+        self._rule_stack = []      # block rules running non-silently (innermost last)
+        self.pins = None           # rule -> literal it assigns to parentType (gen_tables.scan_pins)
+        self.readers = ()          # rules that test parentType (gen_tables.scan_parent_readers)
+        self.silent_parent = {}    # (caller, parentType seen by a silent call) -> count
 
     def viol(self, what, **kw):
         if len(self.violations) < 50:
@@ -50,6 +54,13 @@ def _balanced(tokens, level0):
 
 
 def instrument(md, mon: Monitor, record_loops=True, check_tables=True):
+    if mon.pins is None:
+        try:
+            from .gen_tables import scan_pins, scan_parent_readers
+            mon.pins = dict(scan_pins()[0])
+            mon.readers = tuple(scan_parent_readers())
+        except Exception:
+            mon.pins = None
     def wrap_block(name, fn):
         def g(state, startLine, endLine, silent):
             mon.calls += 1
@@ -57,11 +68,24 @@ def instrument(md, mon: Monitor, record_loops=True, check_tables=True):
             line0, level0, blk0, lmax0, ntok0 = state.line, state.level, state.blkIndent, state.lineMax, len(state.tokens)
             tabs0 = _tables(state) if check_tables else None
             src = state.src
+            if silent and mon._rule_stack:
+                caller = mon._rule_stack[-1]
+                key = (caller, state.parentType)
+                mon.silent_parent[key] = mon.silent_parent.get(key, 0) + 1
+                if mon.pins is not None and name in mon.readers and mon.pins.get(caller) != state.parentType:
+                    mon.viol(f"K6: silent call of {name} (which tests parentType) from the terminator chain of {caller} sees parentType={state.parentType!r}, "
+                             f"not the caller's own pin {mon.pins.get(caller)!r} (a value left by an earlier block)", rule=caller, input=src,
+                             startLine=startLine, silent=True)
+            if not silent:
+                mon._rule_stack.append(name)
             try:
                 res = fn(state, startLine, endLine, silent)
             except Exception as e:
                 mon.viol(f"K1: block rule {name} raised {type(e).__name__}", rule=name, input=src, startLine=startLine, silent=silent)
                 raise
+            finally:
+                if not silent:
+                    mon._rule_stack.pop()
             frame_ok = (state.level == level0 and state.blkIndent == blk0 and state.lineMax == lmax0
                         and (tabs0 is None or _tables(state) == tabs0))
             if not frame_ok:
